@@ -446,6 +446,12 @@ class Machine:
 
     def choose(self, n, label=''):
         """nondeterministic choice among n alternatives (environment nondeterminism): explored exhaustively"""
+        forced = self.env.get('forced_choices')
+        if forced and forced.get(label):
+            # the parallel splitter fixes the first occurrence(s) of this choice per sub-case (all values together cover every alternative)
+            v = forced[label].pop(0)
+            if v >= n: raise Infeasible()
+            return v
         for k in range(n - 1):
             b = z3.Bool(f'choice!{label}!{self.fresh}!{k}')
             self.fresh += 1
